@@ -35,3 +35,11 @@ Print Assumptions C19_ast_iff.
 Theorem C19_ast_value : forall scheme time t, authentic_signing_time scheme time = Some t -> t = time.
 Proof. exact ast_value. Qed.
 Print Assumptions C19_ast_value.
+
+(* enlarging the trust store never turns a trusted chain into an untrusted one *)
+Theorem C19_trust_monotone : forall chain trust trust',
+  (forall t, In t trust -> In t trust') ->
+  (exists j, verify_authenticity (Some chain) trust = Trusted j) ->
+  (exists j, verify_authenticity (Some chain) trust' = Trusted j).
+Proof. exact trust_monotone. Qed.
+Print Assumptions C19_trust_monotone.
